@@ -36,34 +36,28 @@ Definition rec_len (r : rec) : N :=
    enough" when index+GetLength() exceeds the buffer, otherwise the per-type write; errors are
    logged, the first one is kept in d.encodeErr, the index advances regardless).
    Second component: 0 iff d.encodeErr stays nil. Since the repair "data record: an element
-   whose length changed ..." a final index different from d.len is an encode error too
-   ([get_buffer_n]); [get_buffer_n_orig] is the code before that repair.
-   d.len = 0: len(d.buffer) == d.len holds for the nil buffer, nothing is encoded. *)
+   whose length changed ..." a final index different from d.len is an encode error too. *)
 Definition enc_total (els : list (ie * value)) : nat :=
   fold_left (fun a ev => (a + N.to_nat (elem_len (fst ev) (snd ev)))%nat) els 0%nat.
-Definition get_buffer_n_orig (len : N) (els : list (ie * value)) : outcome (list byte * nat) :=
+(* [fz]: the repair "data record of length zero: encode its elements once" - before it, the nil
+   buffer of a record with d.len = 0 satisfied len(d.buffer) == d.len and nothing was encoded
+   (nor checked); [fl]: the record-length repair *)
+Definition get_buffer_g (fz fl : bool) (len : N) (els : list (ie * value)) : outcome (list byte * nat) :=
   let n := N.to_nat len in
-  if Nat.eqb n 0 then Ok ([], 0%nat)
-  else get_buffer_loop els (zeros n) 0 0.
-Definition get_buffer_n (len : N) (els : list (ie * value)) : outcome (list byte * nat) :=
-  let n := N.to_nat len in
-  if Nat.eqb n 0 then Ok ([], 0%nat)
+  if negb fz && Nat.eqb n 0 then Ok ([], 0%nat)
   else
     do (b, k) <- get_buffer_loop els (zeros n) 0 0;
-    Ok (b, if Nat.eqb k 0 && negb (Nat.eqb (enc_total els) n) then 1%nat else k).
+    Ok (b, if fl && Nat.eqb k 0 && negb (Nat.eqb (enc_total els) n) then 1%nat else k).
+Definition get_buffer_n (len : N) (els : list (ie * value)) : outcome (list byte * nat) :=
+  get_buffer_g true true len els.
 
 (* GetBuffer with the number of encode errors that were logged and dropped (ghost) *)
-Definition rec_buffer_e (r : rec) : outcome (list byte * nat) :=
+Definition rec_buffer_e_g (fz fl : bool) (r : rec) : outcome (list byte * nat) :=
   match r with
   | TRec _ _ _ buf _ => Ok (buf, 0%nat)
-  | DRec _ _ els len => get_buffer_n len els
+  | DRec _ _ els len => get_buffer_g fz fl len els
   end.
-(* the same before the record-length repair *)
-Definition rec_buffer_e_orig (r : rec) : outcome (list byte * nat) :=
-  match r with
-  | TRec _ _ _ buf _ => Ok (buf, 0%nat)
-  | DRec _ _ els len => get_buffer_n_orig len els
-  end.
+Definition rec_buffer_e (r : rec) : outcome (list byte * nat) := rec_buffer_e_g true true r.
 Definition rec_buffer (r : rec) : outcome (list byte) := omap fst (rec_buffer_e r).
 
 (* GetMinDataRecordLen: only templateRecord implements it; on a dataRecord the call goes to the
